@@ -30,6 +30,10 @@ func main() {
 		code := h.RunCheck(os.Args[2], os.Args[3], *procs, *budget)
 		h.CleanupScratch()
 		os.Exit(code)
+	case "crashchild":
+		h.CrashChildMain(os.Args[2])
+	case "crashdump":
+		h.CrashDumpMain(os.Args[2])
 	case "replay":
 		b, err := os.ReadFile(os.Args[2])
 		if err != nil {
